@@ -250,6 +250,36 @@ def handleC11 (inp obs : List String) : Verdict :=
   match parsed, pC11Obs.run obs with
   | some ((xs, qs), _), some (o, _) =>
     let n := xs.length
+    -- LARGE region sets (more than 3000 regions): the model and the class histogram are quadratic (insertion sort, list
+    -- indexing); only the spec itself is evaluated on the implementation's observable, with array indexing
+    if n > 3000 then
+      let a := xs.toArray
+      let hitIdx (q : Rec) : List Nat := (List.range n).filter (fun i => (a.getD i default).ov q)
+      match o with
+      | none => { kind := "specfail", nontrivial := true, classes := ["large"], detail := "implementation panicked" }
+      | some o =>
+        let specGets := (List.range (n + 3)).map (fun i => (a[i]?, a[i]?))
+        let specQ := qs.map (fun q =>
+          let idx := hitIdx q
+          (!idx.isEmpty, canonR (idx.map (fun i => a.getD i default)), canonN idx,
+           canonRV (idx.map (fun i => (a.getD i default, i)))))
+        let specMQ := qs.map (fun q =>
+          let idx := hitIdx q
+          (canonRV (idx.map (fun i => (a.getD i default, mapVal i))), canonRV (idx.map (fun i => (a.getD i default, i)))))
+        let spec : C11Obs := ⟨n, xs, xs, specGets, specQ, n, (List.range (n + 3)).map (fun i => if i < n then some (mapVal i) else none), specMQ⟩
+        if o != spec then
+          let d :=
+            if o.len != n then s!"len {o.len} ≠ {n}"
+            else if o.iter != xs || o.intoIter != xs then "iteration order differs from supply order"
+            else if o.gets != specGets then s!"get/index differ from the supplied sequence"
+            else if o.queries != specQ then
+              match (qs.zip (o.queries.zip specQ)).find? (fun (_, (a, b)) => a != b) with
+              | some (q, (a, b)) => s!"query {hexEncode q.chrom}:{q.start}-{q.stop}: find_index_of = {a.2.2.1.take 12}, expected positions {b.2.2.1.take 12}; is_overlapped = {a.1}"
+              | none => "query count"
+            else "IndexMap observable differs"
+          { kind := "specfail", nontrivial := true, classes := ["large"], detail := d }
+        else { kind := "ok", nontrivial := true, classes := ["large"] }
+    else
     let s := IndexSet.fromIter xs
     let im := IndexMap.fromIter (enumFrom 0 xs |>.map (fun x => (x.1, mapVal x.2)))
     let hitIdx (q : Rec) : List Nat := (List.range n).filter (fun i => (xs.getD i default).ov q)
